@@ -8,6 +8,7 @@
     Ops.lean      tensor_sem unary_sem binary_sem reduce_sem subsNum_sem stack_sem lambda_sem getitem_sem …
     Algebra.lean  XR is a commutative monoid under add/mul/max/min (with ±∞, NaN); fold_unrelated
     Reduce.lean   eagerReduce_sem (incl. variables absent from the argument, scale_eq_rep)
+    Rows.lean     mapRows_sem reshape_sem getslice_sem reduction_axis_sem (negative axes) cat_sem unaryOp_sem
     Sound.lean    peval_sound
     Total.lean    peval_total_core, core_complete_and_sound (typing commutes with evaluation)
   This file: non-vacuity examples.
@@ -37,5 +38,33 @@ example : ((lambda "i" 2 exA).map fun r => (r.inputs, r.shape, r.flat)) = some (
 example : ((subsNum [("j", 1)] exA).map fun r => (r.inputs, r.flat)) = some ([("i", 2)], [2, 5]) := by decide +kernel
 example : ((getitem 0 exB (ofNumber 1)).map fun r => (r.inputs, r.shape, r.flat)) =
     some ([("j", 3), ("k", 2)], [], [0, 0, 0, 0, 0, 0]) := by decide +kernel
+
+/-- cat: the concatenated input comes first, the part name is deleted, the others keep their order. -/
+def exC1 : NT := ofTensor [("j", 3), ("t", 1)] [] #[1, 2, 3]
+def exC2 : NT := ofTensor [("t", 2), ("i", 2)] [] #[4, 5, 6, 7]
+example : ((cat "c" "t" [exC1, exC2]).map fun r => (r.inputs, r.shape)) = some ([("c", 3), ("j", 3), ("i", 2)], []) := by
+  decide
+example : ((cat "c" "t" [exC1, exC2]).map (·.flat)) =
+    some [1, 1, 2, 2, 3, 3, 4, 5, 4, 5, 4, 5, 6, 7, 6, 7, 6, 7] := by decide +kernel
+/-- reductions of output axes with a batch input present: axis 0 of the event part = data axis -2. -/
+example : ((reductionAxis "add" (some [0]) false exB).map fun r => (r.inputs, r.shape, r.flat)) =
+    some ([("j", 3), ("k", 2)], [], [1, 2, 3, 4, 5, 6]) := by decide +kernel
+example : ((reductionAxis "max" (some [-1]) true exB).map fun r => (r.inputs, r.shape)) =
+    some ([("j", 3), ("k", 2)], [1]) := by decide +kernel
+example : negAxis 2 1 = -1 ∧ negAxis 2 (-2) = -2 ∧ axisValid 2 (-2) = true ∧ axisValid 2 2 = false := by decide
+/-- reshape / getslice act on the event part only. -/
+example : ((C01.reshape [1, 2] exB).map fun r => (r.inputs, r.shape)) = some ([("j", 3), ("k", 2)], [1, 2]) := by
+  decide +kernel
+example : ((C01.getslice [IdxItem.slice 1 2 1] exB).map fun r => (r.inputs, r.shape, r.flat)) =
+    some ([("j", 3), ("k", 2)], [1], [0, 0, 0, 0, 0, 0]) := by decide +kernel
+/-- the core fragment is inhabited by a non-trivial expression, on which eager evaluation is complete and sound -/
+def exTerm : Term :=
+  Term.reduce "add"
+    (Term.binary ⟨"mul", Sexp.list []⟩
+      (Term.tensor [("i", 2), ("j", 3)] ⟨DType.real, []⟩ #[1, 2, 3, 4, 5, 6])
+      (Term.tensor [("j", 3)] ⟨DType.real, []⟩ #[1, 0, 2]))
+    [("j", ⟨DType.bint 3, []⟩), ("z", ⟨DType.bint 2, []⟩)]
+example : isCore [] exTerm = true := by decide
+example : ((peval exTerm).map fun r => (r.inputs, r.flat)) = some ([("i", 2)], [14, 32]) := by decide +kernel
 
 end FV.Props.C01
